@@ -106,7 +106,17 @@ func runSyncQ(c *Ctx, prop string) {
 			c.undecided(prop+".paths", name, fn.Pos(), "path budget exceeded")
 			continue
 		}
+		if prop == "C13" {
+			c.holds("C13.lock-released", name, fn.Pos(), "checked on every returning path")
+		}
 		for _, t := range traces {
+			if prop == "C13" && t.End == EndReturn {
+				for _, h := range t.heldLocks(len(t.Events)) {
+					if _, is := lockIsField(h, lock); is {
+						c.violated("C13.lock-released", name, fn.Pos(), "a path returns while still holding the queue mutex: woken consumers can never re-acquire it and every later call blocks", c.witness(t, len(t.Events)-1)...)
+					}
+				}
+			}
 			for i, e := range t.Events {
 				if prop == "C12" {
 					if bufCall(e, "Add") {
@@ -371,7 +381,17 @@ func runPriQ(c *Ctx, prop string) {
 			c.undecided(prop+".paths", name, fn.Pos(), "path budget exceeded")
 			continue
 		}
+		if prop == "C13" {
+			c.holds("C13.lock-released", name, fn.Pos(), "checked on every returning path")
+		}
 		for _, t := range traces {
+			if prop == "C13" && t.End == EndReturn {
+				for _, h := range t.heldLocks(len(t.Events)) {
+					if _, is := lockIsField(h, mu); is {
+						c.violated("C13.lock-released", name, fn.Pos(), "a path returns while still holding the queue mutex: every later Push/Pop blocks", c.witness(t, len(t.Events)-1)...)
+					}
+				}
+			}
 			for i, e := range t.Events {
 				// any write to entries other than through container/heap
 				if prop == "C12" {
